@@ -193,6 +193,13 @@ fn set_env(case: &Value) {
         Some(m) => std::env::set_var("FCLONES_VERIF_MOUNTS", m),
         None => std::env::remove_var("FCLONES_VERIF_MOUNTS"),
     }
+    // helper scripts used as transform programs (Transform::new looks the program up through PATH)
+    if let Some(d) = e["path_prepend"].as_str() {
+        let cur = std::env::var("PATH").unwrap_or_default();
+        if !cur.split(':').any(|x| x == d) {
+            std::env::set_var("PATH", format!("{d}:{cur}"));
+        }
+    }
     if let Some(t) = case["tmp"].as_str() {
         std::env::set_var("TMPDIR", t);
         std::env::set_var("XDG_CACHE_HOME", format!("{t}/cache"));
@@ -223,6 +230,7 @@ fn reference_transform(cmd: &str, file: &std::path::Path) -> Option<Vec<u8>> {
     let out = std::process::Command::new("sh")
         .arg("-c")
         .arg(cmd)
+        .env("IN", file)
         .stdin(f)
         .stderr(std::process::Stdio::null())
         .output()
